@@ -116,16 +116,7 @@ def run(ck):
     ok = ok and fl is not None and fl & 2 and fl & 4 and not fl & 8
     ck.ob("C05-O3", sitestr(ct), ok, "FileSink opens its file once with %s (a restart continues the file)" % flagnames(fl) if ok else "FileSink open flags %s" % flagnames(fl), key="FileSink|open-flags")
     # ---- O4
-    reach = S.entry_reach()
-    sites = []
-    for fid in sorted(reach):
-        f = F.fns.get(fid)
-        if f is None:
-            continue
-        for n in sorted(f.all_nodes(), key=lambda n: n["id"]):
-            k = destructive_kind(n)
-            if k:
-                sites.append((f, n, k))
+    sites = S.destructive_sites()
     ck.require(len(sites) >= 4, "fewer destructive call sites than confirmed by hand (%d < 4)" % len(sites))
     for f, n, k in sites:
         ok, why = allowed_destructive(S, f, n, k)
